@@ -21,7 +21,9 @@ PROPERTY = "C07"
 LEADING_REPEAT = int(__import__("os").environ.get("VERIF_C07_LEADING_REPEAT", "1"))
 # 1 = `_calculate_column_widths` caps the pad target by `min_width - extra` even when the table expands; 0 = repaired
 MIN_WIDTH_CAPS_EXPAND = int(__import__("os").environ.get("VERIF_C07_MIN_WIDTH_CAPS_EXPAND", "1"))
-FLAGS = (LEADING_REPEAT, MIN_WIDTH_CAPS_EXPAND)
+# 1 = with ratio columns the width reserved for the other columns is sum(_range.maximum), not sum(_range.maximum or 1); 0 = repaired
+FIXED_RAW_MAXIMUM = int(__import__("os").environ.get("VERIF_C07_FIXED_RAW_MAXIMUM", "1"))
+FLAGS = (LEADING_REPEAT, MIN_WIDTH_CAPS_EXPAND, FIXED_RAW_MAXIMUM)
 
 BOXES = [None, "HEAVY_HEAD", "ASCII", "SQUARE", "MINIMAL", "SIMPLE", "ROUNDED", "DOUBLE_EDGE", "HORIZONTALS", "SIMPLE_HEAVY",
          "MINIMAL_DOUBLE_HEAD", "ASCII_DOUBLE_HEAD", "HEAVY", "DOUBLE", "SQUARE_DOUBLE_HEAD", "MINIMAL_HEAVY_HEAD", "SIMPLE_HEAD",
@@ -170,6 +172,30 @@ def run_small(ctx):
     ctx.flush()
 
 
+def run_collapse_keep(ctx):
+    """The hypothesis `hkeep` of `width_fits_partial` (not yet a theorem): when every column may wrap, every width is >= 1
+    and max_width >= the number of columns, `_collapse_widths` leaves every column at least one cell (and, with the model,
+    sums to exactly max_width).  Evaluated on the real function: exhaustive for <= 4 columns of widths 1..6, seeded beyond."""
+    from rich.table import Table
+
+    def one(widths, mw):
+        got = Table._collapse_widths(list(widths), [True] * len(widths), mw)
+        ctx.case("ratio.collapse", [enc_ints(widths), enc_ints([1] * len(widths)), mw], enc_ints(got), shape="keep")
+        ctx.check(all(g >= 1 for g in got) and (sum(got) == mw if sum(widths) > mw else list(got) == list(widths)),
+                  "collapse_keeps_one_cell", (widths, mw), f"_collapse_widths({list(widths)}, all wrappable, {mw}) = {got}")
+
+    for n in range(1, 5):
+        for widths in itertools.product(range(1, 7 if n < 4 else 5), repeat=n):
+            for mw in range(n, sum(widths) + 1):
+                one(widths, mw)
+    rng = ctx.rng
+    for _ in range(3000 if ctx.quick else 60000):
+        n = rng.randint(1, 8)
+        widths = [rng.choice([1, 1, 2, 3, 5, 8, 13, 30, 31, 32, 64]) for _ in range(n)]
+        one(widths, rng.randint(n, max(n, sum(widths))))
+    ctx.flush()
+
+
 def widths_for(rng, spec, count, dense):
     smin = structural_min(spec)
     nat = natural_width(spec)
@@ -269,6 +295,7 @@ def run(ctx):
     run_ratio(ctx, scale=1.0 if ctx.quick else 25.0)
     ctx.flush()
     run_small(ctx)
+    run_collapse_keep(ctx)
     run_tables(ctx)
     ctx.flush()
     ctx.rule = (
@@ -310,4 +337,33 @@ def replay(ctx, case):
     return False
 
 
-MANIFEST = {}
+MANIFEST = {
+    "text": "Lean 4 theorems (Props/C07.lean; no bound on columns, rows, widths or cell content) about an executable model of "
+    "rich/table.py + the row builders of rich/box.py in which every cell is an oracle (measure / render_lines of the padded cell): "
+    "table_rect (every body line = _extra_width + sum of widths, any options, any box whose characters are one cell wide - re-proved "
+    "by `decide +kernel` for all box literals translated from rich/box.py each run); table_expand_exact (+ _free, table_exact_collapsed): "
+    "an expanding table is exactly as wide as asked when the natural widths fit, or when all columns wrap and re-measuring is stable; "
+    "width_fits_partial (free columns: width <= available, every column >= 1); rows_in_order + rows_header_cells_footer (cell lines "
+    "appear row by row, header / insertion order / footer, each on lines of its own); fold_cells_in_column + every_cell_line_shown (on a "
+    "row's line k, column j's span - at a proved cell offset and width - holds exactly line k of that cell's own rendering, verbatim, or "
+    "blanks); plus the arithmetic core (ratio_distribute sums to total, ratio_reduce bounds, _collapse_widths termination and "
+    "post-condition).  Witnesses by `decide`: old_table_rect_fails (F16, leading >= 2), old_expand_exact_fails (expand + min_width).  "
+    "Tie: the model's column widths and rendered lines equal `_calculate_column_widths` / `Console.render(table)` character for "
+    "character on ~2.6k (quick) / ~50k (thorough) generated tables (1..6 columns, 0..8 rows, all table and column options, nested "
+    "Panel/Table/Padding cells, wide and zero-width characters, ragged and add_row-created columns) with each real cell's oracle "
+    "tabulated on real rich for all widths 0..W; `_get_cells` padding rules, `_get_padding_width` and every box row builder compared "
+    "exhaustively; the theorems' executable statements evaluated on rich's own output.",
+    "note": "PARTIAL: width_fits carries the hypothesis `hkeep` (collapsing leaves every column >= 1 cell when max_width >= number of "
+    "columns) which is evaluated on the real `_collapse_widths` (exhaustive <= 4 columns, seeded beyond) but not yet proved; ratio "
+    "(flexible) columns are covered by table_rect / rows / columns and by table_expand_exact's general form (hypotheses on the first-pass "
+    "widths), not by the `_free` corollaries; non-wrappable columns can exceed the available width (ratio_reduce caps: "
+    "`ratioReduce 50 [1,1] [100,1] [100,1] = [75,0]`) - outside the statement.  Cells, title and caption are oracles (contract checked per "
+    "tabulated entry: rendered lines have exactly the requested width, 0 <= min <= max <= w); that a fold column's cell keeps every "
+    "non-whitespace character is C02's theorem, here only evaluated on real output.  Not modelled: styles/row_styles, Box.substitute "
+    "(legacy_windows / ascii_only consoles), Table.__rich_measure__.  Domain of the direct evaluation: available width >= structural "
+    "minimum (1 cell per free column, width/min_width + padding otherwise), ratio None or >= 1.  Trusted: Lean kernel, axioms "
+    "propext/Classical.choice/Quot.sound, translators harness/tables.py + harness/gen/table_boxes.py, the correspondence harness.  "
+    "Code-variant flags in this file match today's rich: both defects (F16 table-leading-multi, table-expand-min-width) print VIOLATION "
+    "until pending_fixes/C07-*.diff are applied and the flags flipped.",
+    "design_ref": "DESIGN.md section 7 (C01, C07, C08, C09 - layout), section 8 F16; lean/RichModel/Model/TABLE_API.md",
+}
